@@ -22,7 +22,7 @@ NDATA_FLAGS = {0: [2, 3, 0, 9], 1: [1, 0, 9, 2], 2: [1, 4, 0, 3, 9], 5: [1, 1, 4
 
 
 def selectors():
-    sels = [['A', 0.0]]
+    sels = [['A', 0.0], ['A'], ['A', None]]      # the one-element spelling of the property text, and an ignored value
     sels += [['N', n] for n in range(0, 8)]
     for f in 'CDEF':
         sels += [[f, v] for v in THRESH]
@@ -45,7 +45,7 @@ def generate(tier, seed):
         ninf = rng.randint(0, n - nfin)
         chi = vals + [math.inf] * ninf + [math.nan] * (n - nfin - ninf)
         nd = rng.choice([0, 1, 2, 3, 5, 7])
-        sels = [['A', 0.0], ['N', rng.randint(0, n + 3)], ['N', rng.randint(0, n + 3)]]
+        sels = [['A', 0.0], ['A'], ['N', rng.randint(0, n + 3)], ['N', rng.randint(0, n + 3)]]
         for f in 'CDEF':
             for _ in range(3):
                 sels.append([f, rng.dyadic(-1, 60, 12) + 2.0 ** -20])
@@ -180,7 +180,7 @@ def judge(case, im, mo):
     for j, s in enumerate(sels):
         evals += 1
         nf, pk = im['single'][j]
-        form, v = s[0], s[1]
+        form, v = s[0], (s[1] if len(s) > 1 else None)
         ok_margin = _margin_ok(form, v, nd, chi)
         if pk < 0:
             fail.append('columns: selector %r leaves columns of unequal length or not a common prefix' % (s,))
@@ -215,7 +215,7 @@ def judge(case, im, mo):
                 if got < 0 or k1 < 0 or k2 < 0:
                     fail.append('columns: keep %r then %r leaves unequal columns' % (s1, s2))
                     continue
-                if not (_margin_ok(s1[0], s1[1], nd, chi) and _margin_ok(s2[0], s2[1], nd, chi)):
+                if not (_margin_ok(s1[0], s1[1] if len(s1) > 1 else None, nd, chi) and _margin_ok(s2[0], s2[1] if len(s2) > 1 else None, nd, chi)):
                     continue
                 m1 = mk[n][i]
                 want_model = mk[m1][j]
